@@ -14,5 +14,6 @@ CONSTANTS
   FixD = TRUE
   FixE = TRUE
   FixB = TRUE
+  FixG = TRUE
 INVARIANTS AtMostOncePerDistinctKey OnlyRequested OnlyFromHolder ClosedComplete Cleanup
 PROPERTIES Liveness EventuallyClean
